@@ -28,8 +28,24 @@ def run_one(prop: str, tier: str, root: str, evidence_dir: str) -> int:
     rep = Report(prop, tier, getattr(mod, "LEVEL", "other"), root)
     try:
         ctx = Ctx(root, tier)
-        mod.run(ctx, rep)
-        rep, ctx = second_chance(prop, mod, tier, root, rep, ctx)
+        scope_callers: set = set()
+        try:
+            mod.run(ctx, rep)
+        except UnprovenScope as e:
+            # a function the argument reaches is outside the analysed subset: a finding -- unless the second-chance normal form
+            # (which can fuse a private generator into the loop that consumes it) removes the need to analyse it by itself
+            r = rep.rule("scope", "every function the argument depends on is within the analysed statement/expression subset")
+            for kind, line in e.constructs:
+                r.fail(e.qual, f"{e.qual} uses `{kind}` (line {line}), a construct outside the analysed subset; the argument for this "
+                               f"property depends on this function, so the property is not proved for this tree",
+                       file=e.path, line=line, stmt=kind)
+            import ast as _ast
+            short = e.qual.rsplit(".", 1)[-1]
+            for fq, fi in ctx.prog.functions.items():
+                if any(isinstance(n, _ast.Call) and ((isinstance(n.func, _ast.Attribute) and n.func.attr == short) or
+                                                     (isinstance(n.func, _ast.Name) and n.func.id == short)) for n in _ast.walk(fi.node)):
+                    scope_callers.add(fq)
+        rep, ctx = second_chance(prop, mod, tier, root, rep, ctx, extra_targets=scope_callers)
         from sa.rules.model import check_model
         check_model(ctx, rep)  # premises of the resolved-program model itself (whole package), part of every property's argument
         rep.analysed.update(ctx.analysed())
@@ -67,7 +83,7 @@ def run_one(prop: str, tier: str, root: str, evidence_dir: str) -> int:
         return 2
 
 
-def second_chance(prop: str, mod, tier: str, root: str, rep: Report, ctx):
+def second_chance(prop: str, mod, tier: str, root: str, rep: Report, ctx, extra_targets: set = frozenset()):
     """A shape at an anchor matched no verified form.  Before reporting it, re-evaluate the functions the findings name on a
     finer normal form: private helpers called there that no rule looks at by itself are inlined even when they have several
     returns or contain loops (inlining preserves behaviour, so a proof on the normal form is a proof for the tree).  If every
@@ -78,7 +94,7 @@ def second_chance(prop: str, mod, tier: str, root: str, rep: Report, ctx):
     cur = rep
     protect = set(ctx._touched_funcs)
     for _ in range(3):
-        new = {f.construct for f in cur.findings()} - targets
+        new = ({f.construct for f in cur.findings()} | set(extra_targets)) - targets
         if not cur.findings() or not new:
             break
         targets |= new
